@@ -62,6 +62,8 @@ type vState struct {
 
 const vHashCap = 400000
 
+var vBaseSeed uint64
+
 var V = newVState()
 
 func envInt(name string, def int) int {
@@ -339,8 +341,25 @@ func rcheck(t *testing.T, name string, n int, prop func(*rapid.T)) {
 			n = 0
 		}
 		flag.Set("rapid.checks", strconv.Itoa(n))
+		// every sub-test gets its own PRNG stream, a pure function of the run seed and its name
+		if vBaseSeed == 0 {
+			if f := flag.Lookup("rapid.seed"); f != nil {
+				vBaseSeed, _ = strconv.ParseUint(f.Value.String(), 10, 64)
+			}
+			if vBaseSeed == 0 {
+				vBaseSeed = 1
+			}
+		}
+		sub := vBaseSeed*1000003 + hash64(t.Name())%1000000007
+		if sub == 0 {
+			sub = 1
+		}
+		flag.Set("rapid.seed", strconv.FormatUint(sub, 10))
 		if n == 0 && !V.replay {
 			return
+		}
+		if V.ViolationCount() >= 2 {
+			t.Skip("two violations already recorded in this run")
 		}
 		defer func() {
 			if t.Failed() && V.harnessErr == "" {
